@@ -291,8 +291,73 @@ def props_tick_end(E, res):
     return P
 
 
+# ---- power.enroll_cron_event: an enrolled callback is stored where the tick will find it --------------------------------
+
+def run_enroll(k):
+    """k = number of events already queued for the requested epoch (0 = no queue entry for that epoch)"""
+    def run(E):
+        rt, rtref = new_rt(E)
+        PS = Fields('actors/power/src/state.rs', 'State')
+        st = StructV('State', {}, lazy='st')
+        first = fget(E, st, PS['first_cron_epoch'], 'i64').v
+        E.ctx.assume(z3.And(first >= 0, first < 2**40))
+        ep = E.materialize('i64', 'event_epoch')
+        qbase = 'map(st.%d)' % PS['cron_event_queue']
+        qb = BaseInfo(closed=True)
+        E.ctx.memo[('mapbase', qbase)] = qb
+        if k:
+            ab = BaseInfo(closed=True)
+            E.ctx.memo[('mapbase', 'amt_target')] = ab
+            for j in range(k):
+                ab.entries.append([('int', j), True, LazyV('old_event%d' % j, 'state::CronEvent'), IntV(j, 'u64')])
+            acid = new_cid(E, MapM('amt_target', (), 'state::CronEvent', 'amt'), 'amtroot')
+            qb.entries.append([('int', ep.v), True, acid, OpaqueV('bytes', ep)])
+        rt.state = st
+        params = StructV('types::EnrollCronEventParams', {0: ep, 1: BlockV(None, 'payload')})
+        E.ctx.env.update(dict(first=first, ep=ep.v, k=k, qbase=qbase))
+        fn = find_fn(E, 'fil_actor_power', 'enroll_cron_event')
+        return E.run_function(fn, [rtref, params]), rt
+    return run
+
+
+def props_enroll(E, res):
+    env = res.ctx.env
+    rt = env['rt']
+    if res.kind != 'return':
+        return [('no panic (%s)' % str(res.info)[:60], False)]
+    if is_err(res.value):
+        return [('a refused enrolment commits nothing', rt.commits == 0)]
+    PS = Fields('actors/power/src/state.rs', 'State')
+    st1 = rt.state
+    first1 = fget(E, st1, PS['first_cron_epoch'], 'i64').v
+    P = [('only miner actors enrol callbacks', rt.caller_type == models_fvm.ACTOR_TYPES['Miner']),
+         ('callbacks are never enrolled for a negative epoch', env['ep'] >= 0),
+         ("the tick's scan window covers the enrolled epoch: first_cron_epoch = min(previous, event epoch)",
+          first1 == z3.If(env['ep'] < env['first'], env['ep'], env['first']))]
+    qm = heap_get(E, fget(E, st1, PS['cron_event_queue'], CID))
+    if not isinstance(qm, MapM):
+        return P + [('queue written', False)]
+    fp, fv = final_lookup(E, qm, ('int', env['ep']))
+    P.append(('the queue has an entry for the requested epoch', fp is True))
+    if fp is True:
+        arr = heap_get(E, E.deref(fv))
+        if not isinstance(arr, MapM):
+            P.append(('the entry is an event array', False))
+        else:
+            ents = models_fvm.map_entries(E, arr)
+            P.append(('the new event is appended after the %d already queued (none lost)' % env['k'], len(ents) == env['k'] + 1))
+            if ents:
+                ev_ = E.deref(ents[-1][1])
+                P.append(('the stored event calls back the enrolling miner', addr_eq(E.deref(ev_.fields[0]) if not isinstance(E.deref(ev_.fields[0]), LazyV) else E.materialize(ADDR, E.deref(ev_.fields[0]).name), rt.caller)))
+    return P
+
+
 def build(tier):
     O = []
+    for k in ([0, 1] if tier == 'quick' else [0, 1, 2]):
+        O.append(Obligation('power.enroll_cron_event[already queued=%d]' % k, run_enroll(k), props_enroll,
+                            descr='only miners; epoch >= 0; the event is appended to the queue entry of its epoch (nothing lost) and first_cron_epoch moves back to cover it',
+                            bounds='%d event(s) already queued at that epoch; rest of the queue symbolic-closed' % k, max_paths=5000))
     O.append(Obligation('power.on_epoch_tick_end', run_tick_end, props_tick_end,
                         descr="the power actor's cron callback: fails only when the reward actor cannot be queried / updated; snapshots the pledge total; reports the network power",
                         bounds='one call; state symbolic; CUT: process_deferred_cron_events -> Ok (decided separately); reward-actor answers free', max_paths=20000))
